@@ -214,6 +214,14 @@ func vScenarioC13(rc *runCtx) {
 	relayProc := w.NewProc("relay")
 	relayProc.Stdin = &verifsim.SimFile{R: cIn}
 	relayProc.Stdout = &verifsim.SimFile{W: cOut}
+	if tp.Bool("c13.tmuxcc", 300) {
+		// the relay runs inside a tmux in control mode: nothing bypasses the pane, everything it forwards to the
+		// client's side leaves through its standard output, in one order
+		relayProc.Env["TMUX"] = "/tmp/tmux-0/default,1,0"
+		h := (&xferWorld{}).tmuxExec("control", 120, "/dev/pts/3")
+		w.Exec = func(req *verifsim.ExecRequest) (verifsim.ExecChild, error) { return h(req) }
+		rc.res.Scenario["relay_in_tmux"] = "control"
+	}
 	var relay *TrzszRelay
 	w.Go("relay.main", relayProc, func() {
 		relay = NewTrzszRelay(cIn, cOut, sIn, sOut, TrzszOptions{})
